@@ -106,7 +106,11 @@ class HttpRelayClient(RelayPoolClient):
                                     value.encode('iso-8859-1'))
             self.conn.endheaders(msg_headers)
             self.conn.send(msg_body)
-            self._process_response(self.conn.getresponse(), result)
+            http_res = self.conn.getresponse()
+            self._process_response(http_res, result)
+            # Drain the response, or the connection refuses the next request.
+            if hasattr(http_res, 'read'):
+                http_res.read()
 
     def _parse_smtp_reply_header(self, http_res):
         raw_reply = http_res.getheader('X-Smtp-Reply', '')
